@@ -119,7 +119,8 @@ deriving DecidableEq, Repr
 inductive Wrapper
   | outer (m : Method)     -- the outermost handler of the public method that calls `self.error`
   | knownArgs              -- parse_known_args: `except argparse.ArgumentError` → self.error
-  | pathOwn                -- parse_path: handler around `Path(cfg_path, ..)` → self.error
+  | pathOwn                -- parse_path: `except TypeError` around `Path(cfg_path, ..)` and `get_content()` → self.error
+  | pathRead               -- parse_path: `except (ValueError, OSError)` of the same try → self.error (2c9f0ad)
   | links                  -- _parse_common: `except Exception` around apply_parsing_links → self.error
   | getDefaults            -- get_defaults: around _parse_common of a default config file
   | defaultPaths           -- _get_default_config_files: `suppress(TypeError)` around Path(..)
@@ -141,6 +142,7 @@ inductive Wrapper
   | unionTry               -- adapt_typehints, Union: `except Exception` per member, then ValueError
   | subclassBranch         -- adapt_typehints, subclass types
   | callableBranch         -- adapt_typehints, Callable
+  | dataclassBranch        -- adapt_typehints, dataclass-like: `except ArgumentError` around the internal parser → ValueError (52e5b95)
   | anyClasses             -- adapt_classes_any: `except Exception: return orig_val`
   | dictKwargsLoad         -- adapt_class_type: `suppress(get_loader_exceptions())`
   | discard                -- discard_init_args_on_class_path_change: `except Exception`
@@ -180,8 +182,9 @@ structure Tables where
   plainExit : Nat
   /-- `exit_on_error` of the parsers made by `ActionTypeHint.get_class_parser` -/
   innerExitOnError : Bool
-  /-- `exit_on_error` of the parser made by `_ActionHelpClassPath.print_help` -/
-  helpExitOnError : Bool
+  /-- `exit_on_error` of the parser made by `_ActionHelpClassPath.print_help`: a constant, or `none` = that of the
+  parser the action belongs to (`exit_on_error=parser.exit_on_error`, 45f35d9) -/
+  helpExitOnError : Option Bool
   /-- the attributes `_ActionSubCommands.add_subcommand` copies from the parent parser to the sub-command parser -/
   subInherited : List String
   /-- where parse_args drops a pending print_config request -/
@@ -372,7 +375,8 @@ def wrappers : Region → List Wrapper
   | .innerBody m => bodyWrappers m
   | .subBody m => bodyWrappers m
   | .helpBody => bodyWrappers .parseArgs
-  | .pathCtor => [.pathOwn]
+  | .pathCtor => [.pathOwn, .pathRead]
+  | .pathContent => [.pathOwn, .pathRead]
   | .defPaths => [.defaultPaths]
   | .defCommon => [.getDefaults]
   | .envList => [.envList]
@@ -397,6 +401,7 @@ def wrappers : Region → List Wrapper
   | .unionTry => [.unionTry]
   | .subclass => [.subclassBranch]
   | .callable => [.callableBranch]
+  | .dataclass => [.dataclassBranch]
   | .dictKwargsLoad => [.dictKwargsLoad]
   | .discard => [.discard]
   | .knownArgs => [.knownArgs]
@@ -506,7 +511,8 @@ deriving DecidableEq, Repr
 /-- the failures each region is DESIGNED to raise itself (not those of the regions it calls) -/
 def designed (mode : Mode) : Region → List DSig
   | .argsPre => [.errorCall]
-  | .pathCtor => [.exc .TypeError]
+  | .pathCtor => [.exc .TypeError, .exc .ValueError]  -- PathError; ValueError of the os calls (NUL byte)
+  | .pathContent => [.exc .ValueError, .exc .OSError] -- not UTF-8 (UnicodeDecodeError), stdin closed, read errors
   | .defPaths => [.exc .TypeError]
   | .lcpm => [.exc .TypeError]                       -- "Unexpected config"
   | .loadValue => [.loader]
@@ -557,7 +563,7 @@ def subInheritsExit (T : Tables) : Bool := T.subInherited.contains "exit_on_erro
 
 def effOf (T : Tables) (eff : Bool) : Region → Bool
   | .innerBody _ => T.innerExitOnError
-  | .helpBody => T.helpExitOnError
+  | .helpBody => T.helpExitOnError.getD eff
   -- a sub-command parser is built by the user with any exit_on_error; add_subcommand overwrites it with the
   -- parent's.  Were it not copied, the two could differ: the model then takes the value that differs.
   | .subBody _ => if subInheritsExit T then eff else !eff
@@ -593,7 +599,7 @@ non-zero status while it raises.  (A mismatch of a sub-command parser gets no ta
 def retag (T : Tables) (top : Bool) (c : Region) (s : Sig) : Sig :=
   let lib : Option Bool := match c with
     | .innerBody _ => some T.innerExitOnError
-    | .helpBody => some T.helpExitOnError
+    | .helpBody => T.helpExitOnError
     | _ => none
   match lib, s with
   | some false, .exc e .clean => if top && sub T e .ArgumentError then .exc e .innerErr else s
